@@ -650,7 +650,7 @@ func execAsm(c asmCase) asmRun {
 }
 
 // listingOracle checks C15 on canonical records: hex bytes in order == Bytes(); text lines sit at their address.
-func listingOracle(hexRecs, textRecs, bytesHex string, base uint32) string {
+func listingOracle(hexRecs, textRecs, bytesHex string, base uint32, setBases int) string {
 	if hexRecs == "panic" || textRecs == "panic" || hexRecs == "error" || textRecs == "error" {
 		return "producing a listing failed for a program that fit in the buffer"
 	}
@@ -665,6 +665,25 @@ func listingOracle(hexRecs, textRecs, bytesHex string, base uint32) string {
 	}
 	if cat.String() != bytesHex {
 		return fmt.Sprintf("hex listing bytes %s differ from Bytes() %s", cat.String(), bytesHex)
+	}
+	// the base directive sits where it was issued: once (SetBase is issued at most once, before the first emission), and before
+	// every line that carries bytes
+	for _, recs := range []string{hexRecs, textRecs} {
+		nBase, bytesSeen := 0, false
+		for _, r := range strings.Split(recs, "|") {
+			p := strings.SplitN(r, ":", 3)
+			if strings.HasPrefix(r, "base@") {
+				nBase++
+				if bytesSeen {
+					return "a base directive is listed after lines that carry bytes (it was issued before the first emission)"
+				}
+			} else if len(p) == 3 && p[1] != "" {
+				bytesSeen = true
+			}
+		}
+		if nBase > setBases {
+			return fmt.Sprintf("%d base directives are listed, %d were issued", nBase, setBases)
+		}
 	}
 	if textRecs != "" {
 		for _, r := range strings.Split(textRecs, "|") {
@@ -811,6 +830,16 @@ func genAsmCase(r *prng.R, ms []asmMethod, rep *report.Report) asmCase {
 		}
 		body = append(body, asmOp{kind: 'T', label: "o"}, asmOp{kind: 'Q'}, asmOp{kind: 'A'})
 		rep.Count("history: clone/append split")
+		if r.Chance(50) && len(post) > 0 {
+			// the program goes on in the original after the Append (re-using some of the tail's operations)
+			for i := 0; i < 1+r.N(3); i++ {
+				o := post[r.N(len(post))]
+				if o.kind == 'I' || o.kind == 'B' || o.kind == 'C' {
+					body = append(body, o)
+				}
+			}
+			rep.Count("history: emission continues after Append")
+		}
 	}
 	body = append(body, asmOp{kind: 'Q'})
 	if c.text {
@@ -1008,7 +1037,13 @@ func runAsm() {
 					f := strings.Fields(lastQ)
 					if len(f) >= 7 {
 						base, _ := strconv.ParseUint(strings.TrimPrefix(f[5], "base="), 16, 32)
-						if msg := listingOracle(lastH, run.out[j], strings.TrimPrefix(f[6], "b="), uint32(base)); msg != "" {
+						nsb := 0
+						for _, oo := range c.ops[:j] {
+							if oo.kind == 'S' {
+								nsb++
+							}
+						}
+						if msg := listingOracle(lastH, run.out[j], strings.TrimPrefix(f[6], "b="), uint32(base), nsb); msg != "" {
 							run.oracle = append(run.oracle, "C15: "+msg)
 						}
 					}
